@@ -172,6 +172,20 @@ func c06Run(w *verifrt.World, tier Tier) *RunResult {
 	disk.MkdirAllQuiet(simos.Root + "/upload")
 	disk.MkdirAllQuiet(simos.Root + "/audit")
 	w.PoolPolicy = []int{verifrt.PoolLIFO, verifrt.PoolFIFO, verifrt.PoolRandom, verifrt.PoolDrop}[w.PoolT.Draw(4)]
+	// a neighbour that was there first and stays: the same configuration with its
+	// regex selectors moved to the other case-sensitivity class, so that whatever
+	// the process caches under a selector's text already holds the neighbour's
+	// value when the shared WAF is built
+	if sib := siblingText(text); sib != text && w.Sch.Draw(2) == 0 {
+		if nb, err := c06BuildPlain(sib); err == nil {
+			res.count("neighbour_waf_open", 1)
+			defer func() {
+				if c, ok := nb.(closer); ok && !res.Tainted {
+					c.Close()
+				}
+			}()
+		}
+	}
 	shared, err := buildWAF(text)
 	if err != nil {
 		res.fail("C06", "build-differs", "newwaf", "second build of the same configuration failed: %v", err)
